@@ -56,12 +56,27 @@ static void ares_event_signal(const ares_event_t *event)
   event->signal_cb(event);
 }
 
+#ifdef CARES_VERIF
+/* Verification hook (add-only, compiled out unless CARES_VERIF is defined): lets a test
+ * harness observe when the event thread goes to sleep, for how long, and every wake. */
+void (*cares_verif_trace_fn)(const char *ev, long a, long b) = NULL;
+#  define CARES_VERIF_TRACE(ev, a, b)                 \
+    do {                                              \
+      if (cares_verif_trace_fn != NULL) {             \
+        cares_verif_trace_fn((ev), (long)(a), (long)(b)); \
+      }                                               \
+    } while (0)
+#else
+#  define CARES_VERIF_TRACE(ev, a, b)
+#endif
+
 static void ares_event_thread_wake(const ares_event_thread_t *e)
 {
   if (e == NULL) {
     return; /* LCOV_EXCL_LINE: DefensiveCoding */
   }
 
+  CARES_VERIF_TRACE("wake", 0, 0);
   ares_event_signal(e->ev_signal);
 }
 
@@ -344,7 +359,9 @@ static void *ares_event_thread(void *arg)
         (unsigned long)((tvout->tv_sec * 1000) + (tvout->tv_usec / 1000) + 1);
     }
 
+    CARES_VERIF_TRACE("wait", timeout_ms, tvout != NULL);
     e->ev_sys->wait(e, timeout_ms);
+    CARES_VERIF_TRACE("woke", 0, 0);
 
     /* Process pending write operation */
     ares_thread_mutex_lock(e->mutex);
